@@ -911,10 +911,10 @@ example : wrapCexSchema.apply (.replaceAround 0 3 0 3 ⟨[.elem 1 [] [] []], 0, 
     exact contentBetween_empty _ _ r hr
   have hs : wrapCexDoc.slice 0 3 = .ok ⟨[.elem 2 [] [⟨0, []⟩] [.text [97] []]], 0, 0⟩ :=
     sliceKids_children (pre := []) (mid := [.elem 2 [] [⟨0, []⟩] [.text [97] []]]) (post := []) (Lvl.here 0 _) (by rfl)
-  have hcr : wrapCexSchema.canReplace 1 [] 0 0 [.elem 2 [] [⟨0, []⟩] [.text [97] []]] 0 1 = some false := by decide
+  have hcr : wrapCexSchema.validContent 1 [.elem 2 [] [⟨0, []⟩] [.text [97] []]] = false := by decide
   have hi : Slice.insertAt wrapCexSchema ⟨[.elem 1 [] [] []], 0, 0⟩ 1 [.elem 2 [] [⟨0, []⟩] [.text [97] []]]
       = .ok none := by
-    simp [Slice.insertAt, insertInto, flatInsert, hcr]
+    simp [Slice.insertAt, insertInto, flatInsert, fcut, fappend, hcr]
   simp [Schema.apply, hc0, hc3, hs, hi]
 
 /-- `wrapBuilds` is needed: `doc: block+`, `pair: item item`, `item: p+`, `p: text*`; `doc(p("a"))` -/
@@ -1605,9 +1605,9 @@ theorem canChangeType_needs_guard : canChangeType exSchema exDoc 1 1 = some true
     contentBetween_closesOpens _ _ _ (by rfl) (by omega) (by decide) (by rfl)
   have hs : exDoc.slice 2 3 = .ok ⟨[.text [97] []], 0, 0⟩ := by
     simp [Node.slice, exDoc, Node.kids, sliceKids, inRange, sliceScan, sliceHere, fcut, fcutLoop, depthAt, cutText]
-  have hcr : exSchema.canReplace 1 [] 0 0 [.text [97] []] 0 1 = some false := by decide
+  have hcr : exSchema.validContent 1 [.text [97] []] = false := by decide
   have hi : Slice.insertAt exSchema ⟨[.elem 1 [] [] []], 0, 0⟩ 1 [.text [97] []] = .ok none := by
-    simp [Slice.insertAt, insertInto, flatInsert, hcr]
+    simp [Slice.insertAt, insertInto, flatInsert, fcut, fappend, hcr]
   simp [retypeStep, Schema.apply, hc1, hc2, hs, hi]
 
 /-! ### the second pass of `drop_point` (closed slice): always through the Fitter
